@@ -111,7 +111,7 @@ pub fn run(ctx: &mut Ctx) {
     ctx.mark_exhaustive("every-byte-at-every-position", "lengths 1..=16 x every position x all 256 byte values x fill 0..=5, random alphabet characters elsewhere");
 
     // generated: long alphabet strings, strings with one illegal byte, arbitrary bytes
-    let n = ctx.tier.pick(20_000, 600_000);
+    let n = ctx.tier.pick(100_000, 600_000);
     let alpha = (proptest::collection::vec(0usize..64, 0..1100), 0usize..6).prop_map(|(v, fill)| Input::Unarmor { data: v.into_iter().map(|i| ALPHABET[i]).collect(), fill });
     ctx.run_proptest("random-alphabet-strings", &STD, n, alpha, check);
     let one_bad = (proptest::collection::vec(0usize..64, 1..300), any::<u16>(), any::<u8>(), 0usize..6).prop_map(|(v, pos, bad, fill)| {
